@@ -28,6 +28,8 @@ import sys, json
 rows = []
 for l in open(sys.argv[1]):
     p = l.split()
+    if len(p) < 3:
+        p.append("rc=?")      # the patch did not apply (stored patch needs rebasing on the current tree)
     rows.append(dict(change=p[0], caught_by_check=p[1], caught=(p[2] == "rc=1"), first_oracle=" ".join(p[4:]) if len(p) > 4 else None))
 json.dump(dict(total=len(rows), caught=sum(r["caught"] for r in rows), rows=rows), open("/verif/seeded/REGRESSION.json", "w"), indent=1)
 print("caught %d of %d" % (sum(r["caught"] for r in rows), len(rows)))
